@@ -358,6 +358,63 @@ func extractC08(c *Ctx) {
 		c.Add(f[0], "List String", LeanStrList(toks), pos, f[1]+"."+f[2]+": mutex / finished / sentMD / write tokens in source order")
 	}
 
+	// The trailer is written on EVERY way out of GRPCWebBridge.ServeHTTP once forwarding has started: no `return` (at any
+	// depth) between the statement that calls Forward and the statement that calls writeTrailerWithStatus, which must be a
+	// plain top-level statement (seeded change C08-m8: `if err != nil && requestCanceled(r) { return }` in front of it).
+	{
+		var early []string
+		final := "missing"
+		pos := file
+		if fd := c.FuncDecl(file, "GRPCWebBridge", "ServeHTTP"); fd != nil {
+			pos = c.Pos(fd)
+			calls := func(n ast.Node, name string) bool {
+				found := false
+				ast.Inspect(n, func(n ast.Node) bool {
+					if ce, ok := n.(*ast.CallExpr); ok {
+						switch f := ce.Fun.(type) {
+						case *ast.SelectorExpr:
+							found = found || f.Sel.Name == name
+						case *ast.Ident:
+							found = found || f.Name == name
+						}
+					}
+					return !found
+				})
+				return found
+			}
+			after := false
+			for _, st := range fd.Body.List {
+				if !after {
+					after = calls(st, "Forward")
+					continue
+				}
+				if calls(st, "writeTrailerWithStatus") {
+					if _, ok := st.(*ast.ExprStmt); ok {
+						final = "plain"
+					} else {
+						final = "nested:" + strings.Join(strings.Fields(c.Src(st)), " ")
+					}
+					break
+				}
+				ast.Inspect(st, func(n ast.Node) bool {
+					if _, ok := n.(*ast.FuncLit); ok {
+						return false
+					}
+					if _, ok := n.(*ast.ReturnStmt); ok {
+						src := strings.Join(strings.Fields(c.Src(st)), " ")
+						if len(src) > 80 {
+							src = src[:80]
+						}
+						early = append(early, src)
+					}
+					return true
+				})
+			}
+		}
+		c.Add("grpcwebReturnsBeforeTrailer", "List String", LeanStrList(early), pos, "GRPCWebBridge.ServeHTTP: statements containing a return between the Forward call and the trailer write")
+		c.Add("grpcwebTrailerStmt", "String", LeanStr(final), pos, "GRPCWebBridge.ServeHTTP: shape of the statement that writes the trailer (plain = unconditional top-level call)")
+	}
+
 	// always HTTP 200: no WriteHeader call anywhere in the gRPC-Web HTTP path
 	wh := 0
 	for _, fn := range [][2]string{{"GRPCWebBridge", "ServeHTTP"}, {"gRPCWebStream", "send"}, {"gRPCWebStream", "SetHeader"}, {"", "writeTrailerWithStatus"}} {
